@@ -99,22 +99,75 @@ Proof.
 Qed.
 
 (* ================================================================== Points.mask_by_extent *)
-Lemma points_mask_some o e inv m : points_mask o e inv = Ok (Some m) -> m = mask_by_extent (verts o) e inv.
+Lemma located_mask_some locs e inv m : located_mask locs e inv = Ok (Some m) -> m = mask_by_extent locs e inv.
 Proof.
-  unfold points_mask. destruct (obj_extent (verts o)); [|discriminate].
+  unfold located_mask. destruct (obj_extent locs); [|discriminate].
   destruct (box_intersect a e) as [[|]|]; intros H; try discriminate. injection H as <-. reflexivity.
 Qed.
 
-Lemma points_mask_none_iff o e inv :
-  points_mask o e inv = Ok None <->
-  exists bb, obj_extent (verts o) = Ok bb /\ valid_ext e = true /\ boxes_meet bb e = false.
+Lemma located_mask_none_iff locs e inv :
+  located_mask locs e inv = Ok None <->
+  exists bb, obj_extent locs = Ok bb /\ valid_ext e = true /\ boxes_meet bb e = false.
 Proof.
-  unfold points_mask. split.
-  - destruct (obj_extent (verts o)) as [bb|] eqn:E; [|discriminate].
+  unfold located_mask. split.
+  - destruct (obj_extent locs) as [bb|] eqn:E; [|discriminate].
     unfold box_intersect. rewrite (obj_extent_valid _ _ E). simpl.
     destruct (valid_ext e); [|discriminate]. destruct (boxes_meet bb e) eqn:B; [discriminate|].
     intros _. exists bb. auto.
   - intros [bb (E & V & B)]. rewrite E. unfold box_intersect. rewrite (obj_extent_valid _ _ E), V, B. reflexivity.
+Qed.
+
+Lemma points_mask_some o e inv m : points_mask o e inv = Ok (Some m) -> m = mask_by_extent (verts o) e inv.
+Proof. apply located_mask_some. Qed.
+
+Lemma points_mask_none_iff o e inv :
+  points_mask o e inv = Ok None <->
+  exists bb, obj_extent (verts o) = Ok bb /\ valid_ext e = true /\ boxes_meet bb e = false.
+Proof. apply located_mask_none_iff. Qed.
+
+(* the generic statement: an object whose mask_by_extent is utils.mask_by_extent of its locations (behind the bounding-box
+   test) selects exactly the locations inside the closed box (outside it when inverse), one entry per location *)
+Lemma located_mask_exact locs e inv m : located_mask locs e inv = Ok (Some m) ->
+  length m = length locs /\
+  forall i p, nth_error locs i = Some p -> nth_error m i = Some (xorb inv (in_box (coords p) e)).
+Proof.
+  intros H. apply located_mask_some in H. subst m. split; [apply mask_by_extent_length|].
+  intros i p Hp. rewrite mask_by_extent_nth, Hp. reflexivity.
+Qed.
+
+(* ================================================================== groups *)
+Lemma group_copy_spec {A} (copies : list (option A)) :
+  let kept := flat_map (fun c => match c with Some x => [x] | None => [] end) copies in
+  (group_copy_from_extent copies = None <-> forall c, In c copies -> c = None) /\
+  (forall l, group_copy_from_extent copies = Some l -> l = kept /\ l <> []) /\
+  (forall x, In x kept <-> In (Some x) copies).
+Proof.
+  cbv zeta. unfold group_copy_from_extent. split; [|split].
+  - split.
+    + destruct (flat_map _ copies) eqn:E; [|discriminate]. intros _ c Hc. destruct c as [x|]; [|reflexivity].
+      assert (In x (flat_map (fun c => match c with Some x => [x] | None => [] end) copies)).
+      { apply in_flat_map. exists (Some x). split; [exact Hc|left; reflexivity]. }
+      rewrite E in H. contradiction.
+    + intros H. destruct (flat_map _ copies) as [|x r] eqn:E; [reflexivity|]. exfalso.
+      assert (Hin : In x (flat_map (fun c => match c with Some x => [x] | None => [] end) copies)) by (rewrite E; left; reflexivity).
+      apply in_flat_map in Hin as [c [Hc Hx]]. rewrite (H c Hc) in Hx. contradiction.
+  - intros l. destruct (flat_map _ copies) eqn:E; [discriminate|]. intros H; injection H as <-. split; [reflexivity|discriminate].
+  - intros x. rewrite in_flat_map. split.
+    + intros [c [Hc Hx]]. destruct c as [y|]; [|contradiction]. destruct Hx as [->|[]]. exact Hc.
+    + intros H. exists (Some x). split; [exact H|left; reflexivity].
+Qed.
+
+(* ================================================================== unrotated grids: the selection matrix *)
+Lemma grid_sel_nth e2 ox oy oz du dv nu nv i j : i < nu -> j < nv ->
+  nth_error (grid_sel e2 (grid_centres2 ox oy oz du dv nu nv)) j <> None /\
+  forall row, nth_error (grid_sel e2 (grid_centres2 ox oy oz du dv nu nv)) j = Some row ->
+    length row = nu /\ nth_error row i = Some (in_box (coords (grid_centre2 ox oy oz du dv i j)) e2).
+Proof.
+  intros Hi Hj. unfold grid_sel, grid_centres2. rewrite !nth_error_map.
+  rewrite (nth_error_nth' (seq 0 nv) 0) by (rewrite seq_length; exact Hj). rewrite seq_nth by exact Hj. simpl.
+  split; [discriminate|]. intros row H. injection H as <-. split; [rewrite !map_length, seq_length; reflexivity|].
+  rewrite !nth_error_map. rewrite (nth_error_nth' (seq 0 nu) 0) by (rewrite seq_length; exact Hi). rewrite seq_nth by exact Hi.
+  reflexivity.
 Qed.
 
 (* ================================================================== CellObject.mask_by_extent *)
@@ -646,4 +699,161 @@ Proof.
     destruct (nth_error row i) as [b|] eqn:E.
     + exists i. rewrite (nth_error_nth _ _ false E) in Hc. congruence.
     + rewrite (nth_overflow row false) in Hc by (apply nth_error_None; exact E). discriminate.
+Qed.
+
+(* ================================================================== values of the copied sub-grid (repaired index computation) *)
+Lemma select_app {A} : forall m1 m2 (l1 l2 : list A), length m1 = length l1 ->
+  select (m1 ++ m2) (l1 ++ l2) = select m1 l1 ++ select m2 l2.
+Proof.
+  induction m1 as [|b m1 IH]; intros m2 [|x l1] l2 L; simpl in *; try discriminate; [reflexivity|].
+  destruct b; simpl; rewrite IH by lia; reflexivity.
+Qed.
+
+Lemma select_all_false {A} : forall m (l : list A), (forall b, In b m -> b = false) -> select m l = [].
+Proof.
+  induction m as [|b m IH]; intros [|x l] H; simpl; try reflexivity.
+  rewrite (H b) by (left; reflexivity). apply IH. intros c Hc. apply H. right. exact Hc.
+Qed.
+
+Lemma kron_cons b vm um : kron (b :: vm) um = map (fun c => b && c) um ++ kron vm um.
+Proof. reflexivity. Qed.
+
+Lemma select_kron_rows {A} um : forall vm (vrows : list (list A)),
+  length vm = length vrows -> Forall (fun r => length r = length um) vrows ->
+  select (kron vm um) (concat vrows) = concat (map (select um) (select vm vrows)).
+Proof.
+  induction vm as [|b vm IH]; intros [|r rows] L HF; simpl in L; try discriminate; [reflexivity|].
+  inversion HF; subst. rewrite kron_cons. simpl concat.
+  rewrite select_app by (rewrite map_length; auto). rewrite IH by (auto; lia).
+  destruct b; simpl.
+  - f_equal. f_equal. rewrite <- (map_id um) at 2. apply map_ext. reflexivity.
+  - rewrite select_all_false; [reflexivity|]. intros c Hc. apply in_map_iff in Hc as [d [<- _]]. reflexivity.
+Qed.
+
+Lemma select_block {A} a b c : forall (l : list A), length l = a + b + c ->
+  select (repeat false a ++ repeat true b ++ repeat false c) l = firstn b (skipn a l).
+Proof.
+  induction a as [|a IH]; intros l L.
+  - simpl. revert l L. induction b as [|b IHb]; intros l L.
+    + simpl. apply select_all_false. intros x Hx. apply repeat_spec in Hx. exact Hx.
+    + destruct l as [|x l]; [simpl in L; lia|]. simpl. f_equal. apply IHb. simpl in L. lia.
+  - destruct l as [|x l]; [simpl in L; lia|]. simpl. apply IH. simpl in L. lia.
+Qed.
+
+Lemma firstn_skipn_seq {A} (d : A) : forall n a (l : list A), a + n <= length l ->
+  firstn n (skipn a l) = map (fun k => nth (a + k) l d) (seq 0 n).
+Proof.
+  intros n a l H. apply nth_error_ext. intros i.
+  destruct (Nat.lt_ge_cases i n) as [Hi|Hi].
+  - rewrite nth_error_firstn_lt by exact Hi. rewrite nth_error_skipn_add.
+    rewrite nth_error_map. rewrite (nth_error_nth' (seq 0 n) 0) by (rewrite seq_length; exact Hi).
+    rewrite seq_nth by exact Hi. simpl. apply nth_error_nth'. lia.
+  - transitivity (@None A); [|symmetry]; apply nth_error_None.
+    + rewrite firstn_length, skipn_length. lia.
+    + rewrite map_length, seq_length. exact Hi.
+Qed.
+
+Lemma fill_masked_map {A} nd (F : A -> bool) (G : A -> option Z) : forall l,
+  fill_masked nd (map F l) (map G l) = map (fun a => if F a then G a else nd) l.
+Proof. induction l as [|x l IH]; simpl; [reflexivity|]. rewrite IH. reflexivity. Qed.
+
+Lemma fill_masked_app nd : forall m1 m2 v1 v2, length m1 = length v1 ->
+  fill_masked nd (m1 ++ m2) (v1 ++ v2) = fill_masked nd m1 v1 ++ fill_masked nd m2 v2.
+Proof.
+  induction m1 as [|b m1 IH]; intros m2 [|x v1] v2 L; simpl in *; try discriminate; [reflexivity|].
+  rewrite IH by lia. reflexivity.
+Qed.
+
+Lemma fill_masked_rows {A B} nd (F : B -> A -> bool) (G : B -> A -> option Z) (inner : list A) : forall outer,
+  fill_masked nd (concat (map (fun b => map (F b) inner) outer)) (concat (map (fun b => map (G b) inner) outer)) =
+  concat (map (fun b => map (fun a => if F b a then G b a else nd) inner) outer).
+Proof.
+  induction outer as [|b r IH]; simpl; [reflexivity|].
+  rewrite fill_masked_app by (rewrite !map_length; reflexivity). rewrite IH, fill_masked_map. reflexivity.
+Qed.
+
+Lemma last_true_exists : forall l, any_b l = true ->
+  exists last, nth_error l last = Some true /\ forall i, last < i -> nth_error l i <> Some true.
+Proof.
+  induction l as [|b r IH]; intros H; [discriminate|]. rewrite any_b_cons in H.
+  destruct (any_b r) eqn:E.
+  - destruct (IH eq_refl) as [last [H1 H2]]. exists (S last). split; [exact H1|].
+    intros [|i] Hi; [lia|]. simpl. apply H2. lia.
+  - rewrite orb_false_r in H. subst b. exists 0. split; [reflexivity|].
+    intros [|i] Hi; [lia|]. simpl. intros F. assert (any_b r = true) by (apply any_b_true; exists i; exact F). congruence.
+Qed.
+
+(* a filled span is a block: False up to the first selected index, True for count entries, False after *)
+Lemma fill_span_block l : any_b l = true ->
+  exists c, fill_span l = repeat false (argmax_b l) ++ repeat true (count (fill_span l)) ++ repeat false c /\
+            argmax_b l + count (fill_span l) + c = length l.
+Proof.
+  intros Ha. destruct (last_true_exists l Ha) as [last [Hl Hafter]].
+  pose proof (fill_span_count l last Ha Hl Hafter) as Hc.
+  destruct (argmax_first l Ha) as [Hf Hbefore].
+  assert (Hal : argmax_b l <= last).
+  { destruct (Nat.le_gt_cases (argmax_b l) last); [assumption|]. specialize (Hbefore last H). congruence. }
+  assert (Hlen : last < length l) by (apply nth_error_Some; congruence).
+  exists (length l - argmax_b l - count (fill_span l)). split; [|lia].
+  apply nth_error_ext. intros i.
+  destruct (Nat.lt_ge_cases i (length l)) as [Hi|Hi].
+  - destruct (nth_error (fill_span l) i) as [x|] eqn:E; [|apply nth_error_None in E; rewrite fill_span_length in E; lia].
+    symmetry. destruct x.
+    + apply nth_error_block. apply fill_span_true in E as [a [b (Hab & Hta & Htb)]].
+      assert (argmax_b l <= a).
+      { destruct (Nat.le_gt_cases (argmax_b l) a); [assumption|]. specialize (Hbefore a H). congruence. }
+      assert (b <= last).
+      { destruct (Nat.le_gt_cases b last); [assumption|]. exfalso. apply (Hafter b H0 Htb). }
+      lia.
+    + destruct (nth_error (repeat false (argmax_b l) ++ repeat true (count (fill_span l)) ++
+                           repeat false (length l - argmax_b l - count (fill_span l))) i) as [[|]|] eqn:E2; [|reflexivity|].
+      * exfalso. apply nth_error_block in E2.
+        assert (nth_error (fill_span l) i = Some true).
+        { apply fill_span_true. exists (argmax_b l), last. repeat split; auto; lia. }
+        congruence.
+      * apply nth_error_None in E2. rewrite !app_length, !repeat_length in E2. lia.
+  - transitivity (@None bool); [|symmetry]; apply nth_error_None.
+    + rewrite fill_span_length. exact Hi.
+    + rewrite !app_length, !repeat_length. lia.
+Qed.
+
+(* the values of the copied sub-grid, row by row: the source value where the cell's centre is selected, the no-data value
+   elsewhere inside the sub-grid (repaired index computation; [vrows] / [sel] = the source values / selection as nv rows of nu) *)
+Lemma grid_copy_values_spec nu sel g (vrows : list (list (option Z))) :
+  grid_select true nu sel = Some g ->
+  length vrows = length sel -> Forall (fun r => length r = nu) vrows ->
+  grid_copy_values sel g (concat vrows) =
+  concat (map (fun b => map (fun a => if nth (sg_u0 g + a) (nth (sg_v0 g + b) sel []) false
+                                      then nth (sg_u0 g + a) (nth (sg_v0 g + b) vrows []) None
+                                      else None)
+                            (seq 0 (sg_nu g))) (seq 0 (sg_nv g))).
+Proof.
+  unfold grid_select. intros H Lr HF.
+  destruct (any_b (kron (fill_span (row_any sel)) (fill_span (col_any sel nu)))) eqn:K; [|discriminate].
+  apply any_b_kron in K as [Kv Ku]. rewrite fill_span_any in Kv, Ku. injection H as <-.
+  unfold grid_copy_values. simpl sg_mask. simpl sg_u0. simpl sg_v0. simpl sg_nu. simpl sg_nv.
+  rewrite !fill_span_argmax by assumption.
+  destruct (fill_span_block _ Ku) as [cu [Bu Lu]]. destruct (fill_span_block _ Kv) as [cv [Bv Lv]].
+  set (u0 := argmax_b (col_any sel nu)) in *. set (v0 := argmax_b (row_any sel)) in *.
+  set (nu' := count (fill_span (col_any sel nu))) in *. set (nv' := count (fill_span (row_any sel))) in *.
+  assert (Lcol : length (col_any sel nu) = nu).
+  { clear. destruct sel as [|r rs]; simpl; [apply repeat_length|rewrite map_length, seq_length; reflexivity]. }
+  assert (Lrow : length (row_any sel) = length sel) by (unfold row_any; apply map_length).
+  rewrite select_kron_rows.
+  2:{ rewrite fill_span_length, Lrow. auto. }
+  2:{ rewrite fill_span_length, Lcol. exact HF. }
+  rewrite Bv, Bu.
+  assert (Lvr : length vrows = v0 + nv' + cv) by (rewrite Lr, <- Lrow; symmetry; exact Lv).
+  rewrite select_block by exact Lvr.
+  rewrite (firstn_skipn_seq (@nil (option Z))) by (rewrite Lvr; apply Nat.le_add_r). rewrite map_map.
+  assert (E : forall b, In b (seq 0 nv') ->
+            select (repeat false u0 ++ repeat true nu' ++ repeat false cu) (nth (v0 + b) vrows []) =
+            map (fun a => nth (u0 + a) (nth (v0 + b) vrows []) None) (seq 0 nu')).
+  { intros b Hb. apply in_seq in Hb.
+    assert (Hr : length (nth (v0 + b) vrows []) = u0 + nu' + cu).
+    { rewrite Lu, Lcol. rewrite Forall_forall in HF. apply HF. apply nth_In. rewrite Lvr. lia. }
+    rewrite select_block by exact Hr. apply firstn_skipn_seq. rewrite Hr. apply Nat.le_add_r. }
+  rewrite (map_ext_in _ _ _ E).
+  apply (fill_masked_rows None (fun b a => nth (u0 + a) (nth (v0 + b) sel []) false)
+                               (fun b a => nth (u0 + a) (nth (v0 + b) vrows []) None)).
 Qed.
